@@ -66,7 +66,45 @@ def source_quirks():
         chk = True
     else:
         chk = None
-    return rng, carry, chk
+    def flat_of(rel):
+        try:
+            return re.sub(r"\s+", " ", _strip_comments(open(os.path.join(REPO, "src", rel), encoding="utf-8", errors="replace").read()))
+        except OSError:
+            return ""
+    rdb = flat_of("storage/rdb.rs")
+    hnd = flat_of("storage/commands/streams.rs")
+    # 4. does the dump carry the stream's last ID (writer) and does the loader restore it?
+    if re.search(r"const STREAM_LAST_ID", rdb) and re.search(r"xrestore_last_id\(", rdb) and re.search(r"fn raise_last_id", flat):
+        persist = True
+    elif "__FERROUS_STREAM_MARKER__" in rdb:
+        persist = False
+    else:
+        persist = None
+    # 5. an entry's pairs: a list in the order given, or a map
+    if re.search(r"pub struct FieldPairs\(Vec<\(Vec<u8>, Vec<u8>\)>\)", flat) and re.search(r"fields\.push\(\(field, value\)\)", hnd):
+        pairs = True
+    elif re.search(r"pub fields: HashMap<Vec<u8>, Vec<u8>>", flat):
+        pairs = False
+    else:
+        pairs = None
+    # 6. XREAD COUNT 0
+    if re.search(r"Ok\(n\) => count = if n == 0 \{ None \} else \{ Some\(n\) \}", hnd):
+        c0 = True
+    elif re.search(r"Ok\(n\) => count = Some\(n\)", hnd):
+        c0 = False
+    else:
+        c0 = None
+    # 7. incomplete IDs and exclusive bounds
+    if re.search(r"fn parse_range_bound", flat) and re.search(r"parse_range_bound\(&start_str, true\)", hnd) and re.search(r"from_string_with_seq\(", hnd):
+        inc = True
+    elif re.search(r"StreamId::from_string\(&start_str\)", hnd):
+        inc = False
+    else:
+        inc = None
+    return rng, carry, chk, persist, pairs, c0, inc
+
+
+SWITCH_NAMES = ["rangeEndFix", "seqCarry", "parseChecked", "persistLastId", "fieldsList", "readCountZeroAll", "idIncomplete"]
 
 
 def load_findings():
@@ -106,6 +144,38 @@ def fields_text(pairs):
     if not d:
         return "."
     return ",".join("%s=%s" % (hx(k), hx(d[k])) for k in sorted(d))
+
+
+def _namekey(h):
+    return b"" if h == "-" else bytes.fromhex(h)
+
+
+def canon_fields(f):
+    """`k=v,k=v` as the map it collapses to: last value per name, sorted by name"""
+    d = {}
+    for kv in f.split(",") if f else []:
+        k, _, v = kv.partition("=")
+        d[k] = v
+    return ",".join("%s=%s" % (k, d[k]) for k in sorted(d, key=_namekey))
+
+
+def canon_entries(e):
+    if e in (".", ""):
+        return e
+    out = []
+    for x in e.split(";"):
+        idt, _, f = x.partition(":")
+        out.append(idt + ":" + canon_fields(f))
+    return ";".join(out)
+
+
+def canon_reply(a):
+    """an `ents …` / `streams …` reply with every entry's pairs as a sorted map"""
+    if a.startswith("ents "):
+        return "ents " + canon_entries(a[5:])
+    if a.startswith("streams ") and a != "streams .":
+        return "streams " + "/".join(k + ">" + canon_entries(e) for k, _, e in (x.partition(">") for x in a[8:].split("/")))
+    return a
 
 
 FIELD_NAMES = [b"f", b"g", b"", b"\xff\x00", b"field-with-a-longer-name"]
@@ -148,7 +218,7 @@ class Exec:
         self.model = lean_driver("stream")
         q = [False if x is None else x for x in quirks]
         self.q = q
-        ans = self.model.ask("cfg %d %d %d" % tuple(int(x) for x in q))
+        ans = self.model.ask("cfg " + " ".join(str(int(x)) for x in q))
         if ans != "ok":
             raise InternalError("Lean driver refused cfg: %r" % ans)
         self.oracle_failures = []     # (kind, detail)
@@ -353,6 +423,11 @@ class Exec:
             a = a.rsplit(";", 1)[0]
         c, s = self.ask_model(mline)
         ok_oracle = a == s
+        # the same entries with pairs that differ only as a map differs from the list given (order, repeated names)?
+        fields_only = (not ok_oracle) and a.startswith(("ents ", "streams ")) and canon_reply(a) == canon_reply(s)
+        if a.startswith(("ents ", "streams ")):
+            multi = "," in a
+            rep.count("class.read.%s" % ("multi-pair" if multi else "single-pair"))
         rep.nontrivial(("cmd", name, a.split(" ")[0], min(a.count(";") + (0 if a.endswith(".") else 1), 4) if a.startswith(("ents", "streams")) else 0, ok_oracle) + tuple(tag))
         if a.startswith("errprop"):
             rep.count("cmd.errprop")
@@ -360,8 +435,11 @@ class Exec:
             key = args[1]
             old_top = self.accepted_max.get(key) or (0, 0)
             star = args[2] == b"*"
+            extra = dict(extra, accepted_before=id_text(old_top))
             if a.startswith("bulk "):
                 m = re.fullmatch(r"(\d+)-(\d+)", unhx(a.split()[1]).decode("ascii", "replace"))
+                if m:
+                    extra["returned_id"] = m.group(0)
                 if m and not self.accepted(key, (int(m.group(1)), int(m.group(2))), line, dict(extra, args=[x.decode("latin1") for x in args])):
                     ok_oracle = False
             if star:
@@ -381,13 +459,36 @@ class Exec:
         elif name in ("XDEL", "XTRIM") and len(args) > 1 and a.startswith("int ") and a != "int 0":
             self.prev_mut_key[args[1]] = "removal"
         if not ok_oracle:
-            self.record("cmd:" + name, "%s: implementation replies %s, the property prescribes %s" % (name, a[:200], s[:200]), line, a, c, s,
+            self.record("fields" if fields_only else "cmd:" + name,
+                        "%s: implementation replies %s, the property prescribes %s" % (name, a[:200], s[:200]), line, a, c, s,
                         dict(extra, args=[x.decode("latin1") for x in args]))
-        if a != c and not self.code_broken:
-            self.code_differs("%s: implementation %s, Code model %s" % (name, a[:200], c[:200]), line, a, c, s, extra)
+        # a tree that keeps the pairs in a map returns them in the hasher's order: compared with the Code model as sorted maps
+        a_code = a if self.q[4] else canon_reply(a)
+        if a_code != c and not self.code_broken:
+            self.code_differs("%s: implementation %s, Code model %s" % (name, a_code[:200], c[:200]), line, a_code, c, s, extra)
         if name in ("XADD", "XDEL", "XTRIM") and not ok_oracle:
             raise Fail()
         return a
+
+
+def do_restart(ex):
+    """SAVE + restart of the engine behind the handlers (RdbEngine::save, then RdbEngine::load into a fresh engine)"""
+    ex.trace.append("crestart")
+    ex.rep.evaluations += 1
+    ex.rep.count("cmd.RESTART")
+    a = ex.impl.ask("crestart")
+    c, s = ex.ask_model("crestart")
+    if a is None or a == "panic":
+        ex.record("crash", "SAVE + load %s" % ("aborted: " + ex.impl.stderr_tail[-200:] if a is None else "panicked"), "crestart", a, None, None)
+        raise Fail()
+    if a != "ok":
+        ex.record("restart", "SAVE + restart failed: %s" % a, "crestart", a, c, s)
+        raise Fail()
+    for key, (present, top) in sorted(ex.keys.items()):
+        cls = "empty-stream" if not present else "top-removed" if present[-1] < (ex.accepted_max.get(key) or (0, 0)) else "top-present"
+        ex.rep.count("class.restart." + cls)
+        ex.rep.nontrivial(("restart", cls))
+        ex.prev_mut_key[key] = "restart-" + cls
 
 
 # ------------------------------------------------------------------ templates (stream level)
@@ -673,6 +774,12 @@ def cmd_idtext(r, ex, key, allow_special=()):
         return id_text((r.range(0, 9), r.range(0, 2))).encode()
     if k < 11:
         return id_text((clamp(top[0] + r.choice([0, 1])), clamp(top[1] + 1))).encode()
+    if k < 12:
+        # incomplete (no sequence number) or exclusive (`(`) forms, near the present IDs
+        base = present[r.below(len(present))] if present and r.chance(3, 4) else top
+        ms = clamp(base[0] + r.choice([0, 0, -1, 1]))
+        return r.choice([b"%d" % ms, b"%d" % ms, b"(" + id_text((ms, clamp(base[1] + r.choice([0, 0, -1, 1])))).encode(), b"(%d" % ms,
+                         b"(", b"(-", b"((5-0", b"(0-0", b"(%d-%d" % (U64, U64), b"5(", b"%d" % (U64 + 1)])
     return r.choice(ID_TEXTS_BAD)
 
 
@@ -732,6 +839,10 @@ def run_cmd_template(ex, t):
         present = ex.keys.get(key, ([], (0, 0)))[0]
         ex.cmd([b"XDEL", key, id_text(present[-1]).encode() if present else b"1-1"])
         refresh_key(ex, key)
+    elif kind == "restart":
+        do_restart(ex)
+        for k2 in sorted(ex.keys):
+            refresh_key(ex, k2)
     elif kind == "xlen":
         ex.cmd([b"XLEN", key])
     elif kind == "xtrim":
@@ -778,7 +889,7 @@ def gen_cmd_history(r, hist_no):
             opts = r.choice([[], [], [b"COUNT", b"1"], [b"COUNT", b"2"], [b"count", b"0"], [b"COUNT", b"x"], [b"BOGUS"]])
             ts.append(("xread", sub, key, keys, opts))
         elif k < 16:
-            ts.append(("xlen", sub, key))
+            ts.append(("xlen", sub, key) if r.chance(1, 2) else ("restart", sub, key))
         elif k < 18:
             ts.append(("xtrim", sub, key, r.choice(TRIM_CLAUSES)))
         elif k < 19:
@@ -819,9 +930,45 @@ def gen_cmd_ahead_history(r, hist_no):
                 ts.append(("xadd", sub, key, m, a, gen_fields(r)))
             ts.append(("xadd", sub, key, "*", None, gen_fields(r)))
         elif k < 10:
-            ts.append(("xadd", sub, key, "rel", r.choice([(0, 1), (1, 0), (0, 3)]), gen_fields(r)))
+            ts.append(("xadd", sub, key, "rel", r.choice([(0, 1), (1, 0), (0, 3)]), gen_fields(r)) if r.chance(2, 3) else ("restart", sub, key))
         elif k < 11:
-            ts.append(("xread", sub, key, [key], r.choice([[], [b"COUNT", b"2"]])))
+            ts.append(("xread", sub, key, [key], r.choice([[], [b"COUNT", b"2"], [b"COUNT", b"0"]])))
+        else:
+            ts.append((r.choice(["xrange", "xrevrange"]), sub, key, r.choice(COUNT_CLAUSES[:6])))
+    return ts
+
+
+def gen_cmd_restart_history(r, hist_no):
+    """SAVE + restart in the middle of a stream's life: the top entry deleted or trimmed away (or everything), the top ahead of
+    the clock or not, several streams at once; afterwards explicit IDs at / below / just above the old top, `*`, and reads -
+    the last ID ("greatest ID ever added") must have survived, and so must every entry with its pairs in order"""
+    ka, kb = b"r%da" % hist_no, b"r%db" % hist_no
+    ts = []
+    sub = r.fork("cmd")
+    for key in ([ka, kb] if r.chance(1, 2) else [ka]):
+        if r.chance(1, 3):
+            ts.append(("xadd", sub, key, "future", r.choice([(3600000, 5), (10 ** 12, 0), (None, 7), (86400000, U64 - 3)]), gen_fields(r)))
+        for _ in range(r.range(1, 4)):
+            ts.append(("xadd", sub, key, "gt", r.choice([(0, 1), (1, 0), (2, 0), (1, 5)]), gen_fields(r)) if r.chance(3, 4) else ("xadd", sub, key, "*", None, gen_fields(r)))
+        ts.append(r.choice([("xdeltop", sub, key), ("xdeltop", sub, key), ("xtrim", sub, key, [b"MAXLEN", b"0"]), ("xtrim", sub, key, [b"MAXLEN", b"1"]), ("xlen", sub, key)]))
+        if r.chance(1, 3):
+            ts.append(("xdeltop", sub, key))
+    ts.append(("restart", sub, ka))
+    for _ in range(r.range(4, 10)):
+        key = ka if r.chance(2, 3) else kb
+        k = r.below(10)
+        if k < 3:
+            ts.append(("xadd", sub, key, "rel", r.choice([(0, 0), (0, -1), (-1, 0), (0, 1), (1, 0)]), gen_fields(r)))
+        elif k < 5:
+            ts.append(("xadd", sub, key, "*", None, gen_fields(r)))
+        elif k < 6:
+            ts.append(("xadd", sub, key, "text", r.choice([b"1-1", b"0-1", b"5-5"]), gen_fields(r)))
+        elif k < 7:
+            ts.append(("restart", sub, key))
+        elif k < 8:
+            ts.append(r.choice([("xdeltop", sub, key), ("xtrim", sub, key, [b"MAXLEN", b"0"])]))
+        elif k < 9:
+            ts.append(("xread", sub, key, [ka, kb], r.choice([[], [b"COUNT", b"0"], [b"COUNT", b"1"]])))
         else:
             ts.append((r.choice(["xrange", "xrevrange"]), sub, key, r.choice(COUNT_CLAUSES[:6])))
     return ts
@@ -863,6 +1010,22 @@ def classify(kind, det, findings):
                 return f          # the top of the ID space: `*` must be refused, the wrap returns 2^64-1-0
             if kind in ("debug-panic", "debug-arith") and (det["failing_op"].startswith("auto") or "2a" in det["failing_op"].split()[3:4]):
                 return f          # debug build: the overflowing `seq + 1` panics; release: wraps (answers differ from the prescribed ones)
+        if m == "fields-as-map" and kind == "fields":
+            return f          # the same entries; the pairs differ only as a map differs from the list given
+        if m == "last-id-lost-by-restart" and kind in ("monotone", "cmd:XADD") and "crestart" in det.get("ops", []):
+            # after a SAVE + restart an XADD was accepted with an ID not greater than one accepted before
+            ret, before = det.get("returned_id"), det.get("accepted_before")
+            if kind == "monotone" or (ret and before and tuple(int(x) for x in ret.split("-")) <= tuple(int(x) for x in before.split("-"))):
+                return f
+        if m == "xread-count-zero" and kind == "cmd:XREAD" and det.get("impl") == "streams ." and det.get("spec", "").startswith("streams ") and det.get("spec") != "streams .":
+            args = [a.encode("latin1") for a in det.get("args", [])]
+            for i in range(1, len(args) - 1):
+                if args[i].upper() == b"COUNT" and re.fullmatch(rb"\+?0+", args[i + 1]):
+                    return f
+        if m == "incomplete-id-refused" and kind.startswith("cmd:") and det.get("impl") == "err" and det.get("spec") != "err":
+            for t in [a.encode("latin1") for a in det.get("args", [])[2:]]:
+                if re.fullmatch(rb"\(?[0-9]+", t) or (t.startswith(b"(") and re.fullmatch(rb"\([0-9]+-[0-9]+", t)):
+                    return f
         if m == "idtext-wraps":
             texts = []
             if kind == "parseid":
@@ -927,6 +1090,38 @@ def corpus(ex):
     ex.begin("cmd")
     try:
         ex.cmd([b"XADD", b"x", b"18446744073709551621-7", b"f", b"v"], tag=("corpus",))
+    except Fail:
+        pass
+    # hunt d1: the last ID must survive SAVE + restart (top deleted; top ahead of the clock and deleted; trimmed to nothing)
+    for pre, post in (([[b"XADD", b"a", b"5-0", b"f", b"v"], [b"XADD", b"a", b"9-0", b"f", b"v"], [b"XDEL", b"a", b"9-0"], [b"XADD", b"a", b"7-0", b"f", b"v"]],
+                       [[b"XADD", b"a", b"7-0", b"f", b"v"], [b"XRANGE", b"a", b"-", b"+"]]),
+                      ([[b"XADD", b"b", b"99999999999999-5", b"f", b"v"], [b"XDEL", b"b", b"99999999999999-5"]], [[b"XLEN", b"b"], [b"XADD", b"b", b"*", b"f", b"v"]]),
+                      ([[b"XADD", b"c", b"1-0", b"f", b"v"], [b"XADD", b"c", b"3-0", b"f", b"v"], [b"XTRIM", b"c", b"MAXLEN", b"0"]], [[b"XLEN", b"c"], [b"XADD", b"c", b"2-0", b"f", b"v"]]),
+                      ([[b"XADD", b"d", b"1-0", b"a", b"1", b"a", b"2", b"b", b"3"], [b"XADD", b"d", b"2-0", b"f7", b"v", b"f1", b"v", b"f5", b"v", b"f0", b"v"], [b"XTRIM", b"d", b"MAXLEN", b"2"]],
+                       [[b"XRANGE", b"d", b"-", b"+"], [b"XADD", b"d", b"2-0", b"f", b"v"], [b"XADD", b"d", b"2-1", b"f", b"v"]])):
+        ex.begin("cmd")
+        try:
+            for args in pre:
+                ex.cmd(args, tag=("corpus",))
+            do_restart(ex)
+            for args in post:
+                ex.cmd(args, tag=("corpus",))
+        except Fail:
+            pass
+    # hunt d2 (pairs in order, repeated names), d3 (XREAD COUNT 0), d4 (incomplete IDs, exclusive bounds)
+    ex.begin("cmd")
+    try:
+        for args in [[b"XADD", b"dup", b"1-0", b"a", b"1", b"a", b"2", b"b", b"3"], [b"XRANGE", b"dup", b"-", b"+"], [b"XREVRANGE", b"dup", b"+", b"-"], [b"XREAD", b"STREAMS", b"dup", b"0-0"],
+                     [b"XADD", b"ord", b"1-0"] + [x for i in range(8) for x in (b"f%d" % i, b"v%d" % i)], [b"XRANGE", b"ord", b"-", b"+"],
+                     [b"XADD", b"s", b"4-7", b"f", b"v"], [b"XADD", b"s", b"5-0", b"f", b"v"], [b"XADD", b"s", b"5-3", b"f", b"v"], [b"XADD", b"s", b"7-1", b"f", b"v"],
+                     [b"XADD", b"s", b"9-0", b"f", b"v"], [b"XADD", b"s", b"9-8", b"f", b"v"], [b"XADD", b"s", b"10-0", b"f", b"v"],
+                     [b"XREAD", b"COUNT", b"0", b"STREAMS", b"s", b"0-0"], [b"XREAD", b"COUNT", b"0", b"STREAMS", b"s", b"5-3"], [b"XREAD", b"COUNT", b"2", b"STREAMS", b"s", b"0-0"],
+                     [b"XRANGE", b"s", b"-", b"+", b"COUNT", b"0"],
+                     [b"XRANGE", b"s", b"5", b"9"], [b"XRANGE", b"s", b"5-3", b"9"], [b"XREVRANGE", b"s", b"9", b"5", b"COUNT", b"2"], [b"XRANGE", b"s", b"0", b"+"], [b"XREAD", b"STREAMS", b"s", b"9"],
+                     [b"XRANGE", b"s", b"(5-0", b"(9-8"], [b"XRANGE", b"s", b"(4", b"(10"], [b"XRANGE", b"s", b"(0-0", b"+"], [b"XRANGE", b"s", b"-", b"(0-0"],
+                     [b"XRANGE", b"s", b"(18446744073709551615-18446744073709551615", b"+"], [b"XRANGE", b"s", b"(", b"+"], [b"XDEL", b"s", b"(5-0"],
+                     [b"XADD", b"s", b"12", b"f", b"v"], [b"XDEL", b"s", b"12"], [b"XLEN", b"s"]]:
+            ex.cmd(args, tag=("corpus",))
     except Fail:
         pass
     ex.begin("cmd")
@@ -1093,7 +1288,7 @@ def main(tier, seed):
         "Stream::add_auto at the very top of the ID space (saturating, repaired tree) is compared with the Code model only: StorageEngine::xadd refuses before calling it",
     ]
     quirks = source_quirks()
-    rep.extra["source_switches"] = {"rangeEndFix": quirks[0], "seqCarry": quirks[1], "parseChecked": quirks[2]}
+    rep.extra["source_switches"] = dict(zip(SWITCH_NAMES, quirks))
     ok, log, errs = proof_phase(rep, families=["stream"])
     build_harness("stream")
     findings = load_findings()
@@ -1116,11 +1311,16 @@ def main(tier, seed):
             if h < 4:
                 rep.sample({"history": kind, "ops": ex.trace[:12]})
         exhaustive_small(ex)
-        for h in range(160 * scale):
-            ahead = h % 4 == 3
-            ts = gen_cmd_ahead_history(r.fork("c%d" % h), h) if ahead else gen_cmd_history(r.fork("c%d" % h), h)
+        for h in range(200 * scale):
+            kind = "cmd-ahead" if h % 5 == 3 else "cmd-restart" if h % 5 == 4 else "cmd"
+            gen = {"cmd": gen_cmd_history, "cmd-ahead": gen_cmd_ahead_history, "cmd-restart": gen_cmd_restart_history}[kind]
+            ts = gen(r.fork("c%d" % h), h)
+            if h and h % 150 == 0:
+                # every restart leaves an engine (and its sweeper thread) behind in the driver process: start a fresh one now and then
+                ex.impl.close()
+                ex.impl = impl_driver("stream")
             run_history(ex, ts, level="cmd")
-            rep.count("history.cmd-ahead" if ahead else "history.cmd")
+            rep.count("history." + kind)
             if h < 2:
                 rep.sample({"history": "cmd", "ops": [" ".join(unhx(x).decode("latin1") for x in l.split()[1:]) for l in ex.trace[:10]]})
         if tier == "thorough":
